@@ -651,6 +651,10 @@ func main() {
 	raceLog := flag.String("racelog", "", "GORACE log_path prefix (to attribute reports to histories)")
 	maxTimeouts := flag.Int("max-timeouts", 3, "stop after this many deadlocked histories")
 	flag.Parse()
+	if *mode == "atomic" {
+		runAtomic(*n)
+		return
+	}
 	initSamples()
 	timeouts := 0
 	for i := *from; i < *from+*n; i++ {
